@@ -10,23 +10,25 @@ Proof. destruct t; reflexivity. Qed.
 
 Lemma conv_type v t r : t <> TIface -> conv v t = Some r -> type_of r = Some t.
 Proof.
-  intros Ht H. destruct v as [| b | z | bs | l].
+  intros Ht H. destruct v as [| b | z | bs | l | f].
   - rewrite conv_nil in H. injection H as <-. destruct t; try reflexivity. exfalso; apply Ht; reflexivity.
   - destruct t; cbn in H; try discriminate; try (exfalso; apply Ht; reflexivity). injection H as <-. reflexivity.
   - destruct t; cbn in H; try discriminate; try (exfalso; apply Ht; reflexivity); injection H as <-; reflexivity.
-  - destruct t as [| | n s w | | e]; cbn in H; try discriminate; try (exfalso; apply Ht; reflexivity);
+  - destruct t as [| | n s w | | e | fn fw]; cbn in H; try discriminate; try (exfalso; apply Ht; reflexivity);
       repeat match type of H with context [if ?c then _ else _] => destruct c end;
       try discriminate; try (injection H as <-; reflexivity).
     destruct bs as [|b [|b2 r2]]; try discriminate; injection H as <-; reflexivity.
-  - destruct t as [| | n s w | | e]; try discriminate; try (exfalso; apply Ht; reflexivity).
+  - destruct t as [| | n s w | | e | fn fw]; try discriminate; try (exfalso; apply Ht; reflexivity).
     cbn in H. match type of H with option_map _ ?x = _ => destruct x as [ys|] end; [|discriminate].
     injection H as <-. reflexivity.
+  - destruct t; cbn in H; try discriminate; try (exfalso; apply Ht; reflexivity); injection H as <-; reflexivity.
 Qed.
 
 Lemma conv_has_type v t r : conv v t = Some r -> has_type t r.
 Proof.
-  intro H. destruct t as [| | n s w | | e].
+  intro H. destruct t as [| | n s w | | e | fn fw].
   - destruct v; cbn in H; injection H as <-; eexists; reflexivity.
+  - apply (conv_type v); [discriminate | exact H].
   - apply (conv_type v); [discriminate | exact H].
   - apply (conv_type v); [discriminate | exact H].
   - apply (conv_type v); [discriminate | exact H].
@@ -35,13 +37,14 @@ Qed.
 
 Lemma append_conv_has_type t v r : append_conv t v = Some r -> has_type t r.
 Proof.
-  destruct t as [| | n s w | | e]; cbn; intro H.
+  destruct t as [| | n s w | | e | fn fw]; cbn; intro H.
   - injection H as <-. eexists; reflexivity.
   - destruct v; try discriminate; injection H as <-; reflexivity.
   - destruct v; try discriminate; injection H as <-; reflexivity.
   - destruct v; try discriminate; injection H as <-; reflexivity.
-  - destruct v as [| | | |l]; try discriminate.
+  - destruct v as [| | | |l|]; try discriminate.
     destruct (Convert.map_opt (append_conv e) l); [|discriminate]. injection H as <-. reflexivity.
+  - destruct v; try discriminate; injection H as <-; reflexivity.
 Qed.
 
 (* ---- list cells ---- *)
